@@ -450,6 +450,13 @@ func (w *walker) value(v reflect.Value, path *pth, owner, fld string, ex, no *st
 			// address), not what they hold -- shifting or dropping elements inside the backing
 			// array shows here
 			switch v.Type().Elem().Kind() {
+			case reflect.Struct: // e.g. the questions behind len(m.Question): their scalar and string fields
+				full := v.Slice(0, v.Cap())
+				e2.WriteString("|hidden:")
+				for i := v.Len(); i < v.Cap(); i++ {
+					shallowStruct(full.Index(i), &e2)
+					e2.WriteByte(',')
+				}
 			case reflect.Interface, reflect.Ptr:
 				full := v.Slice(0, v.Cap())
 				e2.WriteString("|hidden:")
@@ -568,6 +575,31 @@ func (w *walker) value(v reflect.Value, path *pth, owner, fld string, ex, no *st
 		ex.WriteString(v.Kind().String())
 		no.WriteString(v.Kind().String())
 	}
+}
+
+// shallowStruct renders the scalar and string fields of a struct (nested structs too); references
+// are shown by nil-ness only.
+func shallowStruct(v reflect.Value, b *strings.Builder) {
+	b.WriteByte('{')
+	for i := 0; i < v.NumField(); i++ {
+		f := v.Field(i)
+		switch {
+		case f.Kind() == reflect.String:
+			b.WriteString(strconv.Quote(f.String()))
+		case scalarKind(f.Kind()):
+			b.WriteString(scalar(f))
+		case f.Kind() == reflect.Struct:
+			shallowStruct(f, b)
+		case f.Kind() == reflect.Slice || f.Kind() == reflect.Ptr || f.Kind() == reflect.Interface || f.Kind() == reflect.Map:
+			if f.IsNil() {
+				b.WriteString("nil")
+			} else {
+				b.WriteString("ref")
+			}
+		}
+		b.WriteByte(' ')
+	}
+	b.WriteByte('}')
 }
 
 func scalarKind(k reflect.Kind) bool {
